@@ -471,6 +471,18 @@ def run(ctx):
                           record_type="O" if c.name == "Ordered" else "U"), \
                 None
         drive(R, f, c.name, make, ["a", "b"])
+
+        # a group that lists its own identifier after other items (accepted
+        # today; a refusal placed in the per-item loop would come after the
+        # earlier items were filed)
+        def make_self(c=c):
+            g = mk_refgfa(S2)
+            items = [ol("a", "+"), ol("grp", "+")] if c.name == "Ordered" \
+                else ["a", "grp"]
+            return g, Abs(c, label="line", _gfa=g, items=items, name="grp",
+                          record_type="O" if c.name == "Ordered" else "U"), \
+                None
+        drive(R, f, c.name + ",lists itself", make_self, ["a", "grp"])
     flush()
     ctx.exhaustive[R] = True
 
